@@ -216,6 +216,7 @@ func main() {
 	}
 	res.Counters["panics"] = st.Panics
 	res.Counters["expected-panics"] = st.ExpPanics
+	res.Counters["observers-registered-after-serving-in-another-world"] = st.ObserverReuse
 	res.Counters["running-batch-filter-reused-inside-callback"] = st.FilterReuse
 	res.Counters["locked-table-rows-tried-inside-callbacks"] = st.NestedRows
 	res.Counters["bystander-world-batch-ops-inside-callbacks"] = st.BystanderOps
